@@ -158,6 +158,11 @@ def main():
                 ev["edges"] = sorted([r["src"].split(":")[-1], r["target"].split(":")[-1]] for _, r in df.iterrows())
             elif kind == "probe":
                 fn = getattr(mod, op["name"])
+                if op.get("listfirst"):          # the listings of the cluster come BEFORE the memento is read in this process
+                    ev["functions_first"] = sorted(x.qualified_name for x in m.list_memoized_functions(fn.cluster_name))
+                    for other in op.get("also", []) + ["m2"]:
+                        if hasattr(mod, other):
+                            m.list_memoized_functions(getattr(mod, other).cluster_name)
                 mem = fn.memento(1)
                 ev["memento"] = mem is not None
                 ev["invs"] = []
